@@ -140,7 +140,20 @@ def jit_requests(thorough):
     return out
 
 
-NUMBA_OK = None
+def families(pool):
+    """Groups of related requests (option / scalar-type / flag variants of one base, expressions of
+    one shape, point perturbations, creation-order twins): state leaking between *similar*
+    compilations is the likeliest leak, so some histories draw all their requests from one group."""
+    fam = defaultdict(list)
+    for n in pool:
+        r = R.get(n)
+        fam[n.split("@")[0]].append(n)
+        for t in ("exprfam", "points", "twin"):
+            if t in r.tags:
+                fam["tag:" + t].append(n)
+    return [sorted(v) for k, v in sorted(fam.items()) if len(v) >= 2]
+
+
 
 
 def obs_key(o):
@@ -217,7 +230,11 @@ def gen_history(seed, mode, thorough, hashseed):
     rng = core.rng_for(seed, "hist-" + mode)
     pool = text_requests(thorough) if mode == "text" else jit_requests(thorough)
     nreq = rng.choice([2, 3, 4, 5, 6, 8])
-    ds = [rng.choice(pool) for _ in range(nreq)]
+    if rng.random() < 0.4:
+        fam = rng.choice(families(pool))
+        ds = [rng.choice(fam) for _ in range(nreq)]
+    else:
+        ds = [rng.choice(pool) for _ in range(nreq)]
     ops = []
     # prefix: unrelated creations / churn / option calls
     for _ in range(rng.choice([0, 0, 1, 2, 4])):
@@ -244,6 +261,8 @@ def gen_history(seed, mode, thorough, hashseed):
         pending.append((slot, d))
         # observations on some pending slot (not necessarily the newest: interleaves requests)
         for _ in range(rng.choice([2, 3, 4, 6])):
+            if not pending:
+                break
             s, dn = rng.choice(pending)
             rq = R.get(dn)
             c = rng.random()
@@ -277,6 +296,12 @@ def gen_history(seed, mode, thorough, hashseed):
                 ops.append(["churn", rng.choice([10, 500]), rng.choice([24, 512])])
             elif c < 0.40:
                 ops.append(["options", "scalar", rng.choice(["float32", "complex128"])])
+            elif c < 0.52 and len(pending) > 0:
+                # the objects of one request die: addresses (id()) become reusable
+                ds_, dn_ = pending.pop(rng.randrange(len(pending)))
+                ops.append(["drop", ds_])
+                if not pending:
+                    break
     return {"hashseed": hashseed, "ops": ops, "seed": seed, "mode": mode}
 
 
@@ -407,6 +432,35 @@ def ident_violations(o):
         v.append({"key": "N-IDENT/not-an-identifier", "at": o["at"], "D": o["D"],
                   "okey": obs_key(o), "detail": str(bad[:3])})
     return v
+
+
+def twin_violations(goldens, prop):
+    """Twins are the same request built with another creation order of its own meshes: same
+    signature, so (C13) same names and (C12) same text, already between two fresh processes."""
+    v = []
+    npairs = 0
+    for k, o in sorted(goldens.items()):
+        base = getattr(R.POOL.get(o["D"]), "twin_of", None)
+        if not base:
+            continue
+        g = goldens.get(obs_key(dict(o, D=base)))
+        if g is None:
+            continue
+        npairs += 1
+        if prop == "C13" and o["kind"] == "jit":
+            if o.get("module_name") != g.get("module_name") or o.get("object_names") != g.get("object_names"):
+                v.append({"key": f"N-STABLE/twin/{base}", "at": None, "D": o["D"], "other": base,
+                          "detail": f"{o['D']} and {base} are the same request with the meshes created in the "
+                                    f"other order, but their names differ: {o.get('module_name')} vs "
+                                    f"{g.get('module_name')}"})
+        if prop == "C12" and o.get("module_name") == g.get("module_name"):
+            for f in text_fields(o):
+                if o.get(f + "_sha") != g.get(f + "_sha"):
+                    v.append({"key": f"G-TEXT/twin/{base}", "at": None, "D": o["D"], "other": base,
+                              "detail": f"{o['D']} vs {base} ({o['kind']} {f}): text differs with the creation "
+                                        f"order of the request's meshes\n" + _excerpt(g.get(f, ""), o.get(f, ""))})
+                    break
+    return v, npairs
 
 
 def sep_violations(goldens):
@@ -580,6 +634,10 @@ def _valid_ops(ops):
             if op[1] not in built:
                 continue
             built.add(op[2])
+        elif op[0] == "drop":
+            if op[1] not in built:
+                continue
+            built.discard(op[1])
         out.append(op)
     return out
 
@@ -638,8 +696,9 @@ def replay(path):
     rp = core.load_replay(path)
     prop = rp["property"]
     if rp.get("kind") == "sep":
-        goldens = build_goldens(rp["requests"], ("jit",))
+        goldens = build_goldens(rp["requests"], ("text", "cli", "jit"))
         v, _ = sep_violations(goldens)
+        v = v + twin_violations(goldens, prop)[0]
         hit = [x for x in v if x["key"] == rp["invariant"]]
         print(f"replay {path}: invariant {rp['invariant']} " + ("REPRODUCED" if hit else "not reproduced"))
         if hit:
@@ -723,8 +782,11 @@ def run_check(prop, tier, base, replay_path=None):
     nviol = 0
     sep_pairs = 0
     sep_v = []
+    twin_v, twin_pairs = twin_violations(goldens, prop)
+    sep_v = sep_v + twin_v
     if prop == "C13":
-        sep_v, sep_pairs = sep_violations(goldens)
+        sv, sep_pairs = sep_violations(goldens)
+        sep_v = sep_v + sv
         for g in goldens.values():
             if g["kind"] == "jit":
                 for x in ident_violations(g):
@@ -777,6 +839,7 @@ def run_check(prop, tier, base, replay_path=None):
         verd.add(x["key"], path, x["detail"])
 
     # ---- evidence ----------------------------------------------------------------------
+    core.dump_digests((r["seed"], r["digest"]) for r in results)
     wall = time.time() - t0
     stats = Counter()
     for r in results:
@@ -835,6 +898,7 @@ def run_check(prop, tier, base, replay_path=None):
     if prop == "C13":
         cov["sep_pairs_compared"] = sep_pairs
         cov["sep_shared_name_violations"] = len(sep_v)
+    cov["twin_pairs_compared"] = twin_pairs
     core.write_evidence(
         prop, tier, base, "exploration", cov,
         ["sampled histories, not all histories", "goldens taken at PYTHONHASHSEED=0 with no prior op",
